@@ -110,6 +110,10 @@ ZonedCells ==
              f \in {"hours", "minutes", "seconds", "none"}, h \in {0, 1, -1}, mi \in {0, 1, -1}, sc \in {0, -1}, fr \in {0, 1, 999999999, -1}, p \in {-1, 0, 9, 255}, dt \in {0, 1}, y \in {0, -1}, d \in {0, -1}}
      \* a time zone identifier of n components ("a/a/.../a"): however long, an answer and no exhausted stack
      \cup {[op |-> "MiscX.deepZoneId", args |-> [n |-> n]] : n \in {1, 1000, 300000}}
+     \* the bundled provider asked directly (its trait methods are public) about a time of +-10^k seconds in a zone with a rule footer: an answer
+     \* or a RangeError, never an overflow in the year arithmetic
+     \* (k = 13, 14, 15, 18: beyond the instants; from about 1.9 * 10^14 s the day count leaves 32 bits)
+     \cup {[op |-> "MiscX.farProviderQuery", args |-> [zone |-> z, k |-> k, neg |-> n]] : z \in {"America/New_York", "Europe/Berlin", "Asia/Tokyo"}, k \in {12, 13, 14, 15, 18}, n \in BOOLEAN}
      \* a property bag with an extreme year in the calendars whose arithmetic is this crate's or plain ICU arithmetic (the astronomical
      \* and lunisolar ones assert inside icu_calendar far from the present: C16's recorded finding)
      \cup {[op |-> "MiscX.partialYear", args |-> [cal |-> c, year |-> y, era |-> e]] :
